@@ -174,8 +174,26 @@ def _end_mode(rng, lower=False):
     return {"mode": "deep", "x": float(rng.uniform(0.1, 0.9))}
 
 
+def _retrace_spec(rng):
+    """One further tracePhase call on the same FreeEnergy object (history dimension)."""
+    def side():
+        r = rng.random()
+        if r < 0.4:
+            return {"mode": "same"}
+        if r < 0.65:
+            return {"mode": "wider", "x": float(10 ** rng.uniform(-0.5, 1.3))}    # x*dT further out
+        if r < 0.72:
+            return {"mode": "edge"}            # exactly the remembered (advertised) end
+        return {"mode": "narrower", "f": float(rng.uniform(0.35, 0.95))}          # of the remembered range
+    return {"dT_mul": float(rng.choice([1.0, 1.0, 0.5, 0.25])),
+            "paranoid": "same" if rng.random() < 0.6 else "toggle",
+            "lo": side(), "hi": side()}
+
+
 def generate(tier, seed):
     rng = np.random.default_rng(11000 + int(seed))
+    # separate stream: the history dimension does not disturb the first-call population
+    rng_h = np.random.default_rng(11500 + int(seed))
     n_tr, n_tc = (110, 14) if tier == "quick" else (2600, 300)
     cases = []
     for i in range(n_tr):
@@ -199,6 +217,7 @@ def generate(tier, seed):
             "tscale": float(rng.choice([0.3, 1.0, 3.0])),
             "fscale": float(rng.choice([0.1, 0.3, 1.0])),
             "s": int(rng.integers(1 << 30)),
+            "retrace": [_retrace_spec(rng_h) for _ in range(1 if rng_h.random() < 0.7 else 2)],
         })
     for i in range(n_tc):
         fam = "poly1" if rng.random() < 0.5 else "poly2"
@@ -340,7 +359,7 @@ _START_CONSEQUENCES = ("row-not-at-branch-minimum", "table-stops-short-of-reques
                        "interpolated-free-energy-off", "row-hessian-not-positive-definite",
                        "spinodal-end-not-flagged", "end-flagged-although-range-covered",
                        "reminimised-row-appended-without-spinodal-recheck",
-                       "consecutive-rows-jump")
+                       "consecutive-rows-jump", "retrace-table-stops-short-of-remembered-range")
 
 
 def _attribute_start(viol, start_bad, data0, phase, res):
@@ -682,7 +701,8 @@ def judge_table(pot, phase, fe, req, rec, obs, viol, mon):
                      f"more than the branch itself (towards '{lab}')", "data": {**data0, "row": k}})
 
     # ---- ends, flags, safety margin
-    for side in ("lo", "hi"):
+    rt = req.get("retrace")        # None for the first call on a fresh object
+    for i_side, side in enumerate(("lo", "hi")):
         tend, kind = ends[side]
         reqT = req["TMin"] if side == "lo" else req["TMax"]
         tabT = float(X[0]) if side == "lo" else float(X[-1])
@@ -695,7 +715,8 @@ def judge_table(pot, phase, fe, req, rec, obs, viol, mon):
                          f"{'+' if side == 'lo' else '-'} 2*dT = {want!r}", "data": data0})
         if soft(kind):
             sl = soft_lo if side == "lo" else soft_hi
-            if (reqT < tend + sl) if side == "lo" else (reqT > tend - sl):
+            rawT = rt["raw"][i_side] if rt else reqT
+            if any(((q < tend + sl) if side == "lo" else (q > tend - sl)) for q in (reqT, rawT)):
                 obs[f"end_{side}"] = "soft-end(not judged)"
                 obs[f"soft_{side}"] = {"kind": kind, "table_end": tabT, "flag": flag,
                                        "reached": tabT == reqT}
@@ -708,6 +729,71 @@ def judge_table(pot, phase, fe, req, rec, obs, viol, mon):
                        for k in hop_idx)
         if hop_side:
             continue                      # consequence of the hop already reported
+        if rt:
+            # A further call on an object that has been traced before.  tracePhase clips the
+            # request to the range the object advertised before the call ("maximum
+            # temperature range"): reqT is that *effective* end (always inside the previous
+            # table), raw the end the caller asked for, prev what the flag said before.
+            raw, prev = rt["raw"][i_side], bool(rt["prev_flags"][i_side])
+            clipped = raw != reqT
+            raw_beyond = hard(kind) and ((raw < tend - slack) if side == "lo" else (raw > tend + slack))
+            raw_within = (not hard(kind)) or ((raw > tend + slack) if side == "lo" else (raw < tend - slack))
+            head = (f"call #{rt['k'] + 2} on the same object, {side} end: asked {raw!r} "
+                    f"(previously advertised {rt['prev_adv'][i_side]!r}, flag {prev}; spinodal "
+                    f"{tend:.9g} ({kind})), effective request {reqT!r}, table ends at {tabT!r}, "
+                    f"flag now {flag}")
+            d_rt = {**data0, "retrace": rt}
+            # coverage is not a matter of the last bit (the remembered end is old table end
+            # -+ 2 dT_prev evaluated in floating point; with the same dT it coincides with a
+            # step of the new integration up to rounding); the flag is judged strictly
+            reached = abs(tabT - reqT) <= 4 * float(np.spacing(abs(reqT)))
+            ulp_short = reached and tabT != reqT
+            if ulp_short:
+                obs[f"retrace_{side}_ulps_short"] = float(abs(tabT - reqT) / np.spacing(abs(reqT)))
+            ulp_mech = "rounding-remainder-before-range-end-flagged-as-disappearance"
+            if within and not reached:
+                viol.append({"mech": "retrace-table-stops-short-of-remembered-range",
+                             "msg": head + ": the effective end lies inside the previous table "
+                             "(where the phase exists) but the new table does not reach it",
+                             "data": d_rt})
+                continue
+            if not within:
+                obs[f"retrace_{side}"] = "slack-zone(not judged)"
+            elif not clipped:
+                # the asked end lies inside the remembered range, hence inside the existence
+                # interval, and the table covers it: not a disappearance of the phase
+                obs[f"retrace_{side}"] = "covered:" + ("was-flagged" if prev else "was-unflagged")
+                if flag:
+                    viol.append({"mech": (ulp_mech if ulp_short else
+                                          "end-flag-stale-after-retrace-over-covered-range" if prev
+                                          else "end-flagged-although-range-covered"),
+                                 "msg": head + ": the asked end is inside the existence interval and "
+                                 "the table reaches it, yet the end is flagged as a genuine "
+                                 "disappearance of the phase", "data": d_rt})
+            elif raw_beyond and prev:
+                # the caller again asks for a range that contains the spinodal found before
+                obs[f"retrace_{side}"] = "past:flag-must-persist"
+                if not flag:
+                    viol.append({"mech": "spinodal-end-flag-lost-on-retrace",
+                                 "msg": head + ": the asked range still contains the spinodal the "
+                                 "previous call had stopped at, but the end is no longer flagged "
+                                 "as a genuine disappearance", "data": d_rt})
+            elif raw_beyond:
+                # first request ended inside, this one reaches past the spinodal: the clipping
+                # keeps the object from ever learning about it (recorded, not judged)
+                obs[f"retrace_{side}"] = "past:widening-clipped(not judged)"
+            elif raw_within and not prev:
+                obs[f"retrace_{side}"] = "inside:widening-clipped"
+                if flag:
+                    viol.append({"mech": ulp_mech if ulp_short else "end-flagged-although-range-covered",
+                                 "msg": head + ": nothing ends here (the asked end and the "
+                                 "remembered one are inside the existence interval) but the end "
+                                 "is flagged", "data": d_rt})
+            else:
+                # asked end between the remembered range and the spinodal, end known to be
+                # genuine: either reading of the flag is defensible
+                obs[f"retrace_{side}"] = "near-known-spinodal(not judged)"
+            continue
         if beyond:
             # table must end before the spinodal: covered by the row test; flag must be set
             if not flag:
@@ -915,7 +1001,110 @@ def _case_trace(case):
     cls += [f"judged:{side}:{obs.get('end_' + side)}" for side in ("lo", "hi")]
     if "minimiser_hop" in obs:
         cls.append("minimiser-hop-seen")
+    # ---- history: further tracePhase calls on the same object, each judged like the first
+    if not viol:
+        first_req = {**req, "first": first}
+        for k, h in enumerate(case.get("retrace") or []):
+            first_req = _retrace(pot, phase, fe, first_req, h, k, obs, viol, mon, cls)
+            if first_req is None or viol:
+                break
     return {"key": key, "cls": cls, "nontrivial": nontriv, "obs": obs, "viol": viol, "mon": mon}
+
+
+def _retrace(pot, phase, fe, prev_req, h, k, obs, viol, mon, cls):
+    """Call tracePhase once more on an already traced FreeEnergy and judge the outcome.
+
+    prev_req describes the preceding call (raw request under "raw" from the second call
+    on).  Returns the description of this call for the next one, or None when the history
+    cannot be continued.  What correct code does here (read off tracePhase): the request is
+    clipped to the range advertised before the call, which lies 2 dT_prev inside the previous
+    table, so the new table must span exactly the clipped range; nothing new can be learnt
+    about the ends, so what the flags say must not be lost."""
+    T0 = prev_req["T0"]
+    raw_prev = prev_req.get("raw", [prev_req["TMin"], prev_req["TMax"]])
+    adv = [float(fe.minPossibleTemperature[0]), float(fe.maxPossibleTemperature[0])]
+    flags = [bool(fe.minPossibleTemperature[1]), bool(fe.maxPossibleTemperature[1])]
+    X1 = np.array(fe._interpolationPoints, dtype=float)
+    Y1 = np.array(fe._interpolationValues, dtype=float)
+    mon["retraces_planned"] = mon.get("retraces_planned", 0) + 1
+    if not (adv[0] < T0 < adv[1]):
+        # the advertised range does not contain the starting temperature (start within 2 dT
+        # of a table end): outside the stated assumption, not exercised
+        cls.append("retrace:skipped:start-outside-advertised-range")
+        return None
+    raw = []
+    for i, side in enumerate(("lo", "hi")):
+        m = h[side]
+        sgn = -1.0 if side == "lo" else 1.0
+        if m["mode"] == "same":
+            v = raw_prev[i]
+        elif m["mode"] == "wider":
+            v = raw_prev[i] + sgn * m["x"] * prev_req["dT"]
+            if side == "lo":
+                v = max(v, 0.05 * T0)
+        elif m["mode"] == "edge":
+            v = adv[i]
+        else:
+            v = T0 + m["f"] * (adv[i] - T0)
+        raw.append(float(v))
+    eff = [max(adv[0], raw[0]), min(adv[1], raw[1])]
+    dT = min(prev_req["dT"] * h["dT_mul"], (eff[1] - eff[0]) / 6.0)
+    paranoid = prev_req["paranoid"] if h["paranoid"] == "same" else (not prev_req["paranoid"])
+    first = prev_req.get("first")
+    same_settings = (dT == prev_req["dT"] and paranoid == prev_req["paranoid"])
+    if first is not None and not (same_settings and first <= 0.5 * min(eff[1] - T0, T0 - eff[0])):
+        first = None
+    rec = MinimiserRecorder(pot)
+    rec.install()
+    o = {"k": k, "spec": h, "raw": raw, "effective": eff, "dT": dT, "paranoid": paranoid,
+         "prev_advertised": adv, "prev_flags": flags, "first_step": first}
+    obs.setdefault("retrace", []).append(o)
+    try:
+        try:
+            fe.tracePhase(raw[0], raw[1], dT, rTol=prev_req["rTol"], paranoid=paranoid,
+                          phaseTracerFirstStep=first)
+        finally:
+            rec.remove()
+            mon["minimiser_calls"] = mon.get("minimiser_calls", 0) + len(rec.calls)
+    except BaseException as exc:
+        if type(exc).__name__ == "CaseTimeout" or not isinstance(exc, Exception):
+            raise
+        viol.append({"mech": "retrace-raises",
+                     "msg": f"call #{k + 2} of tracePhase on the same object raised {exc!r}: asked "
+                     f"[{raw[0]!r},{raw[1]!r}], advertised before [{adv[0]!r},{adv[1]!r}] (flags "
+                     f"{flags}), T0={T0!r}, dT={dT!r}, paranoid={paranoid}; {6.0 * dT <= eff[1] - eff[0]} "
+                     f"that 6 dT fit into the clipped range", "data": {**obs}})
+        cls.append("retrace:raised")
+        return None
+    req = {"T0": T0, "TMin": eff[0], "TMax": eff[1], "dT": dT, "rTol": prev_req["rTol"],
+           "paranoid": paranoid, "seed": prev_req.get("seed", 0) + 7919 * (k + 1),
+           "retrace": {"k": k, "raw": raw, "prev_flags": flags, "prev_adv": adv}}
+    o["res"] = judge_table(pot, phase, fe, req, rec, o, viol, mon)
+    mon["retraces_decided"] = mon.get("retraces_decided", 0) + 1
+    cls += [f"retrace:{side}:{h[side]['mode']}" for side in ("lo", "hi")]
+    cls += [f"retrace:{side}:{o['retrace_' + side]}" for side in ("lo", "hi")
+            if ("retrace_" + side) in o]
+    cls.append("retrace:dT:" + ("same" if dT == prev_req["dT"] else "finer"))
+    cls.append("retrace:paranoid:" + h["paranoid"])
+    # ---- same settings: the integration starts from the same point with the same step
+    # control, so every abscissa the two tables share (all but the rows at the clipped ends)
+    # must carry bit-identical values: what had been tabulated correctly stays as it was
+    if same_settings and first == prev_req.get("first"):
+        X2 = np.asarray(fe._interpolationPoints, dtype=float)
+        Y2 = np.asarray(fe._interpolationValues, dtype=float)
+        common, i1, i2 = np.intersect1d(X1, X2[1:-1], return_indices=True)
+        mon["retrace_rows_compared"] = mon.get("retrace_rows_compared", 0) + int(common.size)
+        o["rows_shared_with_previous_table"] = int(common.size)
+        if common.size:
+            diff = np.any(Y1[i1] != Y2[1:-1][i2], axis=1)
+            if diff.any():
+                j = int(np.nonzero(diff)[0][0])
+                viol.append({"mech": "retrace-with-same-settings-changes-rows",
+                             "msg": f"call #{k + 2} with the same dT, rTol, paranoid: "
+                             f"{int(diff.sum())} of {common.size} shared abscissae carry different "
+                             f"values, e.g. T={common[j]!r}: {Y1[i1][j].tolist()} -> "
+                             f"{Y2[1:-1][i2][j].tolist()}", "data": {**o}})
+    return {**req, "raw": raw, "first": first}
 
 
 # ---------------------------------------------------------------------------- Tc case
